@@ -6,7 +6,7 @@ cd /verif
 export SNAP=$(mktemp -d /tmp/snap.XXXXXX); mkdir -p $SNAP/bin $SNAP/spec; cp ${DHCPVERIF_BIN:-bin/dhcpverif} $SNAP/bin/dhcpverif; cp spec/*.json $SNAP/spec/; cp known_findings.json $SNAP/; unset DHCPVERIF_BIN
 trap 'rm -rf $SNAP' EXIT
 mkdir -p /tmp/refout
-names="$@"; [ -z "$names" ] && names=$(ls refactors | grep -v PROMPT)
+names="$@"; [ -z "$names" ] && names=$(ls -d refactors/*/ | xargs -n1 basename)
 echo $names | tr ' ' '\n' | xargs -P 8 -I{} tools/runpatch.sh {} refactors/{}/patch.diff /tmp/refout
 for name in $names; do
   props=$(grep "^VIOLATION" /tmp/refout/$name.txt | sed 's/.*property=\(C[0-9]*\).*/\1/' | sort -u | tr '\n' ' ')
